@@ -33,8 +33,9 @@ fn z() -> int { return 8 }
 fn g(m: int) -> bool { return (> m 2) }
 fn mk(m: int) -> P { return P { x: m, y: (+ m 1), b: true } }
 """
-PARAMS = "a: int, b: int, c: int, d: int, u: bool, v: bool, w: bool, s: bool, p: P, o: O, t: (int, int)"
-ARGS = "7 3 2 5 true false true false p o t"
+PARAMS = ("a: int, b: int, c: int, d: int, u: bool, v: bool, w: bool, s: bool, p: P, o: O, t: (int, int), "
+          "fa: float, fb: float, fc: float, fd: float, sa: string, sb: string, sc: string, sd: string")
+ARGS = "7 3 2 5 true false true false p o t 1.5 2.25 0.5 4.0 \"x\" \"y\" \"z\" \"w\""
 MAIN_HEAD = """fn main() -> int {
   let p: P = P { x: 5, y: 11, b: false }
   let o: O = O { p: P { x: 4, y: 9, b: true } }
@@ -178,6 +179,10 @@ def judge_single(cc, tag, rec, findings):
                         what="infix %r is compiled as %r instead of %r (%s)" % (
                             rec["infix"], rec["dev"], rec["prefix"],
                             "rejected: " + b["phase"] if not b["ok"] else "different code"))
+    if not b["ok"] and b["phase"] == "parser" and any("depth exceeded" in l for l in (b.get("err") or [])):
+        # the property is quantified up to the parser's nesting limit: the infix spelling of a deep right comb needs two
+        # levels of the recursion budget per parenthesis; a rejection that names the limit is outside the property
+        return "limit", dict(what="beyond the parser's nesting limit")
     if b["ok"]:
         what = "the two spellings compile to different code"
     else:
@@ -188,7 +193,7 @@ def judge_single(cc, tag, rec, findings):
 # ------------------------------------------------------------------ main entry
 def generate(ctx, tier):
     """Run TLC; returns (records, model-checking summary)"""
-    runs = [("NanoSyntax_t3", True), ("NanoSyntax_t3pq" if tier == "quick" else "NanoSyntax_t3p", True),
+    runs = [("NanoSyntax_t3", True), ("NanoSyntax_t2x", True), ("NanoSyntax_t3pq" if tier == "quick" else "NanoSyntax_t3p", True),
             ("NanoSyntax_d2q" if tier == "quick" else "NanoSyntax_d2", True)]
     if tier == "thorough":
         runs += [("NanoSyntax_comb", True)]
@@ -222,6 +227,17 @@ def run(ctx):
     cc = Compiler(ctx, tree, layout)
     findings = findings_for(PROP)
     recs, states, trans = generate(ctx, tier)
+    # spellings the lexical rules make equivalent (emitted for the families t3 and t2x): each is one more
+    # "infix" text of the same tree -- tight (no blanks around symbolic infix operators), cmt (comments and tabs
+    # between tokens), pcmt (the prefix form with comments and tabs)
+    extra = []
+    for r in recs:
+        for style in ("tight", "cmt", "pcmt"):
+            if r.get(style) and r[style] != r["infix"] and r[style] != r["prefix"]:
+                x = dict(r)
+                x["infix"], x["fam"], x["dev"] = r[style], r["fam"] + ":" + style, ""
+                extra.append(x)
+    recs = recs + extra
     seen, cases = set(), []
     for r in recs:
         key = (r["prefix"], r["infix"])
@@ -292,6 +308,8 @@ def run(ctx):
                 stats["identical"] += 1
                 if rec["val"] not in ("div0", "skip"):
                     stats["values_checked"] += 1
+            elif verdict == "limit":
+                stats["beyond_nesting_limit"] = stats.get("beyond_nesting_limit", 0) + 1
             elif verdict.startswith("known:"):
                 fid = verdict[6:]
                 known_hits[fid] = known_hits.get(fid, 0) + 1
@@ -333,7 +351,7 @@ def run(ctx):
         rule="every expression tree TLC enumerates from NanoSyntax.tla (operator triples with distinct operands, "
              "the same with one operand replaced by a postfix form, all typed trees of depth <= 2%s); distinct = "
              "distinct (prefix text, infix text) pairs; non-trivial = the two spellings differ textually" % (
-                 ", combs up to 900 operators" if tier == "thorough" else ""),
+                 ", combs up to 450 operators" if tier == "thorough" else ""),
         exhaustive=True,
         states=states, transitions=trans,
         identical_bytecode=stats["identical"], values_checked_against_spec=stats["values_checked"],
